@@ -767,18 +767,20 @@ int sx127x_set_preamble_length(uint16_t value, sx127x *device) {
 
 int sx127x_lora_set_implicit_header(sx127x_implicit_header_t *header, sx127x *device) {
   CHECK_MODULATION(device, SX127x_MODULATION_LORA);
+  // the handle follows the chip: it is updated only when every transfer succeeded
   if (header == NULL) {
+    ERROR_CHECK(sx127x_append_register(REGMODEMCONFIG1, SX127x_HEADER_MODE_EXPLICIT, 0b11111110, &device->spi_device));
     device->expected_packet_length = 0;
     device->use_implicit_header = false;
-    return sx127x_append_register(REGMODEMCONFIG1, SX127x_HEADER_MODE_EXPLICIT, 0b11111110, &device->spi_device);
   } else {
-    device->expected_packet_length = header->length;
-    device->use_implicit_header = true;
     ERROR_CHECK(sx127x_append_register(REGMODEMCONFIG1, SX127x_HEADER_MODE_IMPLICIT | header->coding_rate, 0b11110000, &device->spi_device));
     ERROR_CHECK(sx127x_shadow_spi_write_register(REGPAYLOADLENGTH, &(header->length), 1, &device->spi_device));
     uint8_t value = (header->enable_crc ? 0b00000100 : 0b00000000);
-    return sx127x_append_register(REGMODEMCONFIG2, value, 0b11111011, &device->spi_device);
+    ERROR_CHECK(sx127x_append_register(REGMODEMCONFIG2, value, 0b11111011, &device->spi_device));
+    device->expected_packet_length = header->length;
+    device->use_implicit_header = true;
   }
+  return SX127X_OK;
 }
 
 int sx127x_lora_set_frequency_hopping(uint8_t period, uint64_t *frequencies, uint8_t frequencies_length, sx127x *device) {
@@ -786,9 +788,10 @@ int sx127x_lora_set_frequency_hopping(uint8_t period, uint64_t *frequencies, uin
   if (frequencies == NULL || frequencies_length == 0) {
     return SX127X_ERR_INVALID_ARG;
   }
+  ERROR_CHECK(sx127x_shadow_spi_write_register(REGHOPPERIOD, &period, 1, &device->spi_device));
   device->frequencies = frequencies;
   device->frequencies_length = frequencies_length;
-  return sx127x_shadow_spi_write_register(REGHOPPERIOD, &period, 1, &device->spi_device);
+  return SX127X_OK;
 }
 
 int sx127x_rx_get_packet_rssi(sx127x *device, int16_t *rssi) {
@@ -955,11 +958,12 @@ int sx127x_lora_tx_set_explicit_header(sx127x_tx_header_t *header, sx127x *devic
   if (header == NULL) {
     return SX127X_ERR_INVALID_ARG;
   }
-  device->use_implicit_header = false;
-  device->expected_packet_length = 0;
   ERROR_CHECK(sx127x_append_register(REGMODEMCONFIG1, header->coding_rate | SX127x_HEADER_MODE_EXPLICIT, 0b11110000, &device->spi_device));
   uint8_t value = (header->enable_crc ? 0b00000100 : 0b00000000);
-  return sx127x_append_register(REGMODEMCONFIG2, value, 0b11111011, &device->spi_device);
+  ERROR_CHECK(sx127x_append_register(REGMODEMCONFIG2, value, 0b11111011, &device->spi_device));
+  device->use_implicit_header = false;
+  device->expected_packet_length = 0;
+  return SX127X_OK;
 }
 
 int sx127x_lora_tx_set_for_transmission(const uint8_t *data, uint8_t data_length, sx127x *device) {
